@@ -198,6 +198,96 @@ def short(d: dict) -> str:
 
 
 # ---------------------------------------------------------------------------
+EDIT_PAIRS = [(1, True), (True, 1), (0, False), (2, 2.0), (2.0, 2),
+              (0.0, -0.0), ([0, 1], [False, True]), ({"a": 1}, {"a": 1.0}),
+              ("1", 1), (None, False), ([], {}), (1, 2), ("a", "a ")]
+
+
+def edit_case(args) -> dict:
+    """A later writer changes one custom-metadata value (possibly only its
+    type) and saves without writing examples: a fresh open must reconstruct
+    what that writer held."""
+    level, style, save = args
+    from sedpack.io import Dataset, Metadata
+    out = {"bad": [], "cases": 0, "harness": None}
+
+    def strict(x):
+        return json.dumps(x, sort_keys=True, ensure_ascii=False)
+
+    for v1, v2 in EDIT_PAIRS:
+        root = core.fresh_dir("c20e")
+        try:
+            out["cases"] += 1
+            from sedpack.io.metadata import Attribute, DatasetStructure
+            md = {"k": v1, "other": "x"}
+            struct = DatasetStructure(
+                saved_data_description=[
+                    Attribute(name="id", dtype="int64", shape=(3,),
+                              custom_metadata=json.loads(json.dumps(md))
+                              if level == "attribute" else {}),
+                    Attribute(name="v", dtype="float32", shape=(2,))],
+                examples_per_shard=2, shard_file_type="fb",
+                hash_checksum_algorithms=("md5",))
+            ds_ = Dataset.create(
+                path=root, dataset_structure=struct, metadata=Metadata(
+                    description="d", custom_metadata=json.loads(
+                        json.dumps(md)) if level == "dataset" else {}))
+            with ds_.filler() as f:
+                for q in range(3):
+                    f.write_example(values=D.example((0, 0, q)),
+                                    split="train")
+            del ds_
+            w = Dataset(root)
+            new = {"k": v2, "other": "x"}
+            if level == "dataset":
+                if style == "in-place":
+                    w.metadata.custom_metadata["k"] = v2
+                else:
+                    w.metadata = Metadata(description="d",
+                                          custom_metadata=new)
+            else:
+                attr = w.dataset_structure.saved_data_description[0]
+                if style == "in-place":
+                    attr.custom_metadata["k"] = v2
+                else:
+                    attr.custom_metadata = new
+            desc = (f"{level}-level custom metadata value {v1!r} changed to "
+                    f"{v2!r} ({style}) and saved by {save}")
+            try:
+                if save == "write_config":
+                    w.write_config(updated_infos=[])
+                else:
+                    with w.filler():
+                        pass
+            except Exception as e:  # pylint: disable=broad-except
+                out["bad"].append(("edit-fails", f"{desc}: "
+                                   f"{type(e).__name__}: {str(e)[:120]}",
+                                   list(args)))
+                continue
+            held = strict(w.metadata.custom_metadata if level == "dataset"
+                          else w.dataset_structure.saved_data_description[0]
+                          .custom_metadata)
+            fresh = Dataset(root)
+            got = strict(fresh.metadata.custom_metadata if level == "dataset"
+                         else fresh.dataset_structure
+                         .saved_data_description[0].custom_metadata)
+            if got != held:
+                out["bad"].append(
+                    ("edit-lost", f"{desc}: the writer held {held}, a fresh "
+                     f"open reads {got}", list(args)))
+            n = len(D.ids(fresh, "train", "sync"))
+            if n != 3:
+                out["bad"].append(("content", f"{desc}: {n} of 3 examples "
+                                   f"after the edit", list(args)))
+        except Exception as e:  # pylint: disable=broad-except
+            out["harness"] = f"{type(e).__name__}: {e} " + \
+                traceback.format_exc()[-300:]
+        finally:
+            shutil.rmtree(root, ignore_errors=True)
+    return out
+
+
+# ---------------------------------------------------------------------------
 def relocation_case(args) -> dict:
     fmt, target_name, how, open_by = args
     out = {"bad": [], "cases": 1, "harness": None}
@@ -393,6 +483,22 @@ def run(ctx):
         ctx.part("description round trip", descriptions=n,
                  json_values=len(json_values(ctx.tier)))
         ctx.add(evaluations=n, distinct_nontrivial=n)
+        ne = 0
+        etasks = [(lv, st, sv) for lv in ("dataset", "attribute")
+                  for st in ("in-place", "replaced")
+                  for sv in ("write_config", "empty filler session")]
+        for r in ex.map(edit_case, etasks):
+            if r["harness"]:
+                ctx.harness_error(r["harness"])
+            ne += r["cases"]
+            for sym, msg, a in r["bad"]:
+                ctx.violation({"engine": "grid", "part": "edit",
+                               "symptom": sym}, msg,
+                              {"kind": "edit", "args": a})
+        ctx.part("description edited by a later writer and saved without "
+                 "new examples: value pairs equal under == but not as JSON",
+                 cases=ne, pairs=len(EDIT_PAIRS))
+        ctx.add(evaluations=ne, distinct_nontrivial=ne)
         m = 0
         for r in ex.map(relocation_case, rel):
             if r["harness"]:
@@ -448,4 +554,6 @@ def replay(case):
         return [m for _, m, _ in roundtrip_case(([d],))["bad"]]
     if k == "relocation":
         return [m for _, m, _ in relocation_case(tuple(case["args"]))["bad"]]
+    if k == "edit":
+        return [m for _, m, _ in edit_case(tuple(case["args"]))["bad"]]
     return [m for _, m, _ in version_case(([case["version"]],))["bad"]]
